@@ -12,12 +12,18 @@ use reftex::liang::{self, ascii_lc, Liang, EDGE};
 const MIXED_LOWER: [char; 4] = ['a', 'é', 'ḁ', '𝐚'];
 const MIXED_UPPER: [char; 4] = ['A', 'É', 'Ḁ', '𝐀'];
 
+/// Letters that Unicode does not class as alphabetic: a letter is whatever the lower-case map accepts
+/// (TeX: any character with a non-zero \\lccode; Italian/French patterns use the apostrophe, Indic ones
+/// U+200D). ASCII apostrophe, U+2019 (3 bytes), U+200D ZERO WIDTH JOINER (3 bytes, no glyph), '@', and a
+/// non-BMP symbol (4 bytes). They map to themselves.
+const SYMBOL_LETTERS: [char; 5] = ['\'', '\u{2019}', '\u{200D}', '@', '\u{1F600}'];
+
 /// The model's lower-case map: ASCII letters as `hyphenate::AsciiLowerCaser`, plus the mixed alphabet.
 fn lc_all(c: char) -> Option<char> {
     if let Some(l) = ascii_lc(c) {
         return Some(l);
     }
-    if MIXED_LOWER.contains(&c) {
+    if MIXED_LOWER.contains(&c) || SYMBOL_LETTERS.contains(&c) {
         return Some(c);
     }
     MIXED_UPPER.iter().position(|u| *u == c).map(|i| MIXED_LOWER[i])
@@ -203,6 +209,11 @@ fn expect(cfg: &Config, model: &Liang, wl: &[char], acc: &mut Acc) -> Expect {
     let mut d11_adjusted = None;
     let mut d11b_adjusted = None;
     if let Some(e) = exc {
+        // (a trie walk bounded by the longest pattern would never reach this entry)
+        let longest = model.patterns.iter().map(|p| p.key.iter().filter(|c| **c != EDGE).count()).max().unwrap_or(0);
+        if e.letters.len() > longest + 1 {
+            acc.count("exception_longer_than_every_pattern_plus_1");
+        }
         let pat_pos: Vec<usize> = (1..n).filter(|j| ps[*j] % 2 == 1).collect();
         if pat_pos != positions {
             acc.count("exception_contradicts_patterns");
@@ -390,7 +401,10 @@ fn case_variants(wl: &[char], all: bool) -> Vec<String> {
         v.dedup();
         return v;
     }
-    (0..(1u32 << len)).map(|u| wl.iter().enumerate().map(|(i, c)| if u >> i & 1 == 1 { uc_all(*c) } else { *c }).collect()).collect()
+    let mut v: Vec<String> = (0..(1u32 << len)).map(|u| wl.iter().enumerate().map(|(i, c)| if u >> i & 1 == 1 { uc_all(*c) } else { *c }).collect()).collect();
+    v.sort();
+    v.dedup();
+    v
 }
 
 /// Every `\hyphenation` entry for the words over {a,b} of length lo..=hi: each subset of the interior
@@ -569,7 +583,7 @@ const NONE: Option<u8> = None;
 
 fn main() {
     let mut ctx = Ctx::new("C13", Level::Exploration);
-    ctx.assume("lower-case maps explored: hyphenate::AsciiLowerCaser on ASCII letters, and one harness LowerCaser that adds the letters é/É (2 bytes), ḁ/Ḁ (3 bytes) and 𝐚/𝐀 (4 bytes); patterns and exception entries are written in lower case (an upper-case letter in an entry is finding D11c)");
+    ctx.assume("lower-case maps explored: hyphenate::AsciiLowerCaser on ASCII letters, and one harness LowerCaser that adds the letters é/É (2 bytes), ḁ/Ḁ (3 bytes), 𝐚/𝐀 (4 bytes) and, mapped to themselves, the non-alphabetic letters ', U+2019, U+200D, @ and U+1F600 (a letter is whatever the map accepts); patterns and exception entries are written in lower case (an upper-case letter in an entry is finding D11c)");
     ctx.assume("pattern sets with two patterns on the same (anchored) letter string are outside the domain: TeX §963 rejects the second as \"Duplicate pattern\" (skipped and counted)");
     ctx.assume("patterns are well formed in the sense of TeX §962: letters, at most one digit per slot, \".\" only at the ends, no digit outside the dots; words contain letters only (a string with a non-letter is never a word, TeX §897)");
     ctx.assume("an exception entry with a leading or trailing hyphen is legal and the hyphen has no effect (TeX §938 records position 0 / n, §923 clears them)");
@@ -717,6 +731,7 @@ fn main() {
             let strip = |s: &str| s.replace('-', "");
             if strip(&ex[a]) == strip(&ex[b]) && ex[a] != ex[b] {
                 acc.count("same_word_entered_twice");
+                acc.count("exception_redeclared");
             }
             let mut words = words_around(&ex[a]);
             if strip(&ex[a]) != strip(&ex[b]) {
@@ -1034,6 +1049,64 @@ fn main() {
         });
     }
 
+    // F12: letters that are not Unicode-alphabetic (a letter is whatever the LowerCaser accepts)
+    {
+        let nonalpha = |t: &str| t.chars().any(|c| !c.is_alphabetic() && !c.is_ascii_digit() && c != '.' && c != '-');
+        let five = ['a', SYMBOL_LETTERS[0], SYMBOL_LETTERS[1], SYMBOL_LETTERS[2], SYMBOL_LETTERS[3]];
+        let u = pattern_universe_over(&five, 2, &pair_menu);
+        let mut wl5 = five.to_vec();
+        wl5.push(SYMBOL_LETTERS[4]);
+        let words = words_over(&wl5, 3);
+        let nw: usize = words.iter().map(|w| w.1.len()).sum();
+        let (u, words) = (&u, &words);
+        ctx.family("symbol-single-pattern", &format!("each of the {} patterns with 1..2 letters over {{a, ', U+2019, U+200D, @}} (letters that are not Unicode-alphabetic, mapped to themselves by the harness LowerCaser), anchors, digits {{none,1,2,9}} x all {} words of length 1..3 over these letters, U+1F600 and A", u.len(), nw), u.len() as u64, |i, acc| {
+            let cfg = Config { patterns: vec![u[i as usize].clone()], mixed: true, ..Default::default() };
+            if nonalpha(&cfg.patterns[0]) {
+                acc.count("pattern_with_non_alphabetic_letter");
+            }
+            check_config(i, &cfg, words, acc);
+        });
+        let three = ['a', SYMBOL_LETTERS[0], SYMBOL_LETTERS[2]];
+        let up = pattern_universe_over(&three, 2, &[NONE, Some(1)]);
+        let pwords = words_over(&three, 3);
+        let k = up.len() as u64;
+        let (up, pwords) = (&up, &pwords);
+        ctx.family("symbol-pattern-pairs", &format!("every unordered pair from the {k} patterns with 1..2 letters over {{a, ', U+200D}}, anchors, digits {{none,1}} (index space {k}^2) x all words of length 1..3 over these letters"), k * k, |idx, acc| {
+            let (i, j) = (idx / k, idx % k);
+            if j <= i {
+                return;
+            }
+            let cfg = Config { patterns: vec![up[i as usize].clone(), up[j as usize].clone()], mixed: true, ..Default::default() };
+            if cfg.patterns.iter().any(|p| nonalpha(p)) {
+                acc.count("pattern_with_non_alphabetic_letter");
+            }
+            check_config(idx, &cfg, pwords, acc);
+        });
+        let mut ue = vec![String::new()];
+        ue.extend(pattern_universe_over(&['a', SYMBOL_LETTERS[0], SYMBOL_LETTERS[1]], 2, &[NONE, Some(1), Some(9)]));
+        let mut ex = exception_menu_over(&five, 2, 2);
+        ex.extend(exception_menu_over(&three, 3, 3));
+        ex.extend(exception_menu_over(&[SYMBOL_LETTERS[4], 'a'], 2, 2));
+        let around: Vec<Vec<(Vec<char>, Vec<String>)>> = ex.iter().map(|e| words_around(e)).collect();
+        let (nu, ne) = (ue.len() as u64, ex.len() as u64);
+        let (ue, ex, around) = (&ue, &ex, &around);
+        ctx.family("symbol-exception-vs-pattern", &format!("(no pattern or one of the {} patterns with 1..2 letters over {{a, ', U+2019}}, digits {{none,1,9}}) x one of the {ne} exception entries (length 2 over {{a, ', U+2019, U+200D, @}} and {{U+1F600, a}}, length 3 over {{a, ', U+200D}}, every hyphen placement, so every such letter stands next to a hyphen) x the entry's word and its neighbours", nu - 1), nu * ne, |idx, acc| {
+            let (pi, ei) = ((idx / ne) as usize, (idx % ne) as usize);
+            let cfg = Config { patterns: if ue[pi].is_empty() { vec![] } else { vec![ue[pi].clone()] }, exceptions: vec![ex[ei].clone()], exceptions_first: false, mixed: true, list_api: None };
+            if nonalpha(&ue[pi]) {
+                acc.count("pattern_with_non_alphabetic_letter");
+            }
+            if nonalpha(&ex[ei]) {
+                acc.count("exception_with_non_alphabetic_letter");
+            }
+            check_config(idx, &cfg, &around[ei], acc);
+        });
+    }
+
+    ctx.require("pattern_with_non_alphabetic_letter", "a pattern with a letter that Unicode does not class as alphabetic (apostrophe, U+2019, U+200D, @)");
+    ctx.require("exception_with_non_alphabetic_letter", "an exception entry with such a letter, also directly next to a hyphen");
+    ctx.require("exception_redeclared", "the same word inserted twice with different positions (every ordered pair of entries, so both orders): the later one must win");
+    ctx.require("exception_longer_than_every_pattern_plus_1", "an exception word with more letters than the longest loaded pattern plus one");
     ctx.require("exception_list_separated_by_space_or_tab", "an exception list whose entries are separated by blanks or tabs only goes through insert_exceptions");
     ctx.require("exception_against_pattern_digit_6_or_7", "an exception entry meets a pattern digit equal to the scores 6/7 under which exceptions are stored");
     ctx.require("empty_word_looked_up", "the empty word is looked up");
